@@ -355,8 +355,12 @@ def run_check(prop: str, tier: str, seed: int, replay: str | None = None) -> int
         mod.run(ctx)
     except Infra as e:
         infra_error = str(e)
-    except Exception:
-        infra_error = traceback.format_exc()
+    except Exception as e:
+        if type(e).__name__ == "TranslateError":
+            # a translator used inside the suite no longer understands the source: the tie is broken, not the infrastructure
+            proof_problems.append(f"translator failed inside the suite: {e}")
+        else:
+            infra_error = traceback.format_exc()
 
     if infra_error is None and (proof_problems or ctx.corr_failures) and not ctx.monitor_hits and hasattr(mod, "search"):
         # 5. a proof obligation or the correspondence broke: search for a concrete failing input
